@@ -91,3 +91,13 @@ Example C08_nonvacuous :
     /\ o_res o = RReply {| m_tid := 0; m_uid := 5; m_fc := 3; m_id := 0 |} /\ s_tx st' = [] /\ s_tid st' = 0.
 Proof. exact retry_example. Qed.
 Print Assumptions C08_nonvacuous.
+
+(* since repairs 10/11 of /repo: a complete frame of another unit followed by the own reply in the same read
+   yields the own reply (RTU; transitions recorded from the repaired framer, replayed on every run by the
+   "wrongthenown" scripts) *)
+Example C08_foreign_then_own_example :
+  exists m, o_res (snd (execute code Z (table_framer tab_foreign_own) cfg_rtu0 (st0 7) rq_big
+                        [Nothing; Nothing; Data [6;1]%N; Data [1;5;144;255;5;131;2;129;48]%N])) = RReply m
+            /\ m_uid m = r_unit rq_big /\ m_fc m = Z.lor (r_fc rq_big) 128.
+Proof. exact foreign_then_own_example. Qed.
+Print Assumptions C08_foreign_then_own_example.
